@@ -152,7 +152,8 @@ class Check:
     TRANSLATED = {"classification": ("src/paulie/classifier/classification.py", "ClassGen.v", "ClassRefine.v", "Model/Star.v"),
                   "compiler": ("src/paulie/application/pauli_compiler.py", "CompGen.v", "CompRefine.v", "Model/Compiler.v"),
                   "pstring": ("src/paulie/common/pauli_string_bitarray.py", "PSGen.v", "PSRefine.v", "Model/Pauli.v"),
-                  "collection": ("src/paulie/common/pauli_string_collection.py", "CollGen.v", "CollRefine.v", "Model/Collection.v")}
+                  "collection": ("src/paulie/common/pauli_string_collection.py", "CollGen.v", "CollRefine.v", "Model/Collection.v"),
+                  "parser": ("src/paulie/common/pauli_string_parser.py", "ParserGen.v", "ParserRefine.v", "Model/Parser.v")}
 
     def check_translation(self, kind="classification"):
         """Regenerate the Gallina translation of part of the source from REPO's working tree (tools/py2coq.py) and
